@@ -257,10 +257,26 @@ class IMMachine(FormatMachine):
         iid = str(op["iid"])
         img = self.mods().Image(s.obj)
         attrs = {}
+        inplace = op.get("inplace") or []
         for f in IMG_FIELDS:
-            if f in op["attrs"]:
+            if f in op["attrs"] and f not in inplace:
                 setattr(img, f, copy.deepcopy(op["attrs"][f]))
+        # fields listed in `inplace` are NOT assigned: the object's own default container is filled in place
+        # (checksums through add_checksum, additional_variants through append) - what a caller who never assigns would do
+        if "checksums" in inplace and isinstance(op["attrs"].get("checksums"), dict) and isinstance(img.checksums, dict):
+            for t, v in op["attrs"]["checksums"].items():
+                img.add_checksum(None, t, v)
+        if "additional_variants" in inplace and isinstance(op["attrs"].get("additional_variants"), list) and isinstance(img.additional_variants, list):
+            for v in op["attrs"]["additional_variants"]:
+                img.additional_variants.append(v)
+        for f in IMG_FIELDS:
             attrs[f] = copy.deepcopy(getattr(img, f))
+        if inplace:
+            CTX.probe("im.image_built_in_place_on_defaults")
+            want = dict((f, op["attrs"][f]) for f in inplace if f in op["attrs"])
+            got = dict((f, attrs[f]) for f in want)
+            if want != got and self.watching("C02"):
+                raise Violation("C02", "C02.object_holds_what_was_put_in", "in-place-built-image-differs", {"diff": first_diff(want, got)})
         s.pool[iid] = img
         s.model["imgs"][iid] = attrs
         return "ok"
